@@ -118,7 +118,7 @@ func genC13(w *bufio.Writer, tier string, rng *rand.Rand) {
 		// the multiset an accumulator stands for doubles with every self-combine and grows like
 		// Fibonacci numbers under alternating combines: sizes are kept below maxDen so that the
 		// exact model (which carries the multiset) stays small
-		const maxDen = 3000
+		const maxDen = 1000
 		cnt := make([]int, nacc)
 		for o := 0; o < nops; o++ {
 			r := rng.Float64()
